@@ -332,6 +332,11 @@ fn run(ctx: &mut Ctx) {
     // a legal puzzle text can be long: every cell followed by 1000 blanks (81 KB), givens in the
     // last rows
     r3.push(full9.chars().enumerate().map(|(i, c)| format!("{}{}", if i < 60 { '.' } else { c }, " ".repeat(1000))).collect());
+    // long texts whose blanks and whitespace are multi-byte characters (so that some character
+    // straddles every power-of-two byte offset somewhere), givens in the last rows
+    for pad in [333usize, 1000, 1365] {
+        r3.push(full9.chars().enumerate().map(|(i, c)| format!("{}{}", if i < 60 { '\u{b7}' } else { c }, "\u{a0}".repeat(pad + i % 2))).collect());
+    }
     for p in &r3 {
         idx += 1;
         if ctx.mine(idx) {
